@@ -258,6 +258,12 @@ class _Normalise(ast.NodeTransformer):
                 if uses == 2:   # the binding and the with item
                     w.items[0].context_expr = prev.value
                     body[i - 1] = ast.copy_location(ast.Pass(), prev)
+                elif w.items[0].optional_vars is None and "GradientTape" in ast.unparse(prev.value.func):
+                    # tape = tf.GradientTape(); with tape: ... tape.gradient(..)  ==  with tf.GradientTape() as tape: ...
+                    # (a GradientTape enters as itself)
+                    w.items[0].context_expr = prev.value
+                    w.items[0].optional_vars = ast.copy_location(ast.Name(id=nm, ctx=ast.Store()), prev.targets[0])
+                    body[i - 1] = ast.copy_location(ast.Pass(), prev)
         return body
 
     def generic_visit(self, node):
@@ -274,6 +280,25 @@ def _normalise(tree):
         return ast.fix_missing_locations(_Normalise().visit(tree))
     except Exception:   # never let the normaliser stand between the source and the analysis
         return tree
+
+
+def _wrap_passthrough_managers(tree, managers):
+    for n in ast.walk(tree):
+        if not isinstance(n, ast.FunctionDef) or n.decorator_list:
+            continue
+        body = [st for st in n.body if not (isinstance(st, ast.Expr) and isinstance(st.value, ast.Constant) and isinstance(st.value.value, str))]
+        if len(body) != 1 or not isinstance(body[0], ast.Return) or not isinstance(body[0].value, ast.Call):
+            continue
+        c = body[0].value
+        last = c.func.attr if isinstance(c.func, ast.Attribute) else (c.func.id if isinstance(c.func, ast.Name) else None)
+        if last not in managers or n.name not in managers:
+            continue   # only a wrapper that carries a manager's own name (mask_params -> vm.mask_params)
+        ret = body[0]
+        w = ast.With(items=[ast.withitem(context_expr=c, optional_vars=ast.Name(id="_cm_value", ctx=ast.Store()))], body=[ast.Expr(value=ast.Yield(value=ast.Name(id="_cm_value", ctx=ast.Load())))])
+        ast.copy_location(w, ret)
+        n.body = [st for st in n.body if st is not ret] + [w]
+        n.decorator_list = [ast.copy_location(ast.Attribute(value=ast.Name(id="contextlib", ctx=ast.Load()), attr="contextmanager", ctx=ast.Load()), n)]
+        ast.fix_missing_locations(n)
 
 
 class Repo:
@@ -300,6 +325,7 @@ class Repo:
         pkg_root = os.path.join(self.root, self.package)
         if not os.path.isdir(pkg_root):
             raise AnalysisError("package dir not found: %s" % pkg_root)
+        parsed = []
         for dp, dns, fns in os.walk(pkg_root):
             dns[:] = sorted(d for d in dns if d not in EXCLUDE_DIRS)
             for fn in sorted(fns):
@@ -317,14 +343,24 @@ class Repo:
                     raise AnalysisError("cannot parse %s: %s" % (rel, e))
                 tree = _SequentialiseParallelAssign().visit(tree)
                 ast.fix_missing_locations(tree)
-                modname = rel[:-3].replace("/", ".")
-                if modname.endswith(".__init__"):
-                    modname = modname[: -len(".__init__")]
-                m = Mod(rel, modname, tree, src)
-                self.nlines += src.count("\n")
-                self.mods[rel] = m
-                self.by_modname[modname] = m
-                self._index_module(m)
+                parsed.append((rel, src, tree))
+        # second pass: a plain function that only hands back a context manager of the package (`return inner.m(..)`
+        # with m a @contextmanager somewhere in the package) is the same manager as `with inner.m(..) as v: yield v`
+        managers = set()
+        for _, _, tree in parsed:
+            for n in ast.walk(tree):
+                if isinstance(n, ast.FunctionDef) and any(ast.unparse(d).split(".")[-1] == "contextmanager" for d in n.decorator_list):
+                    managers.add(n.name)
+        for rel, src, tree in parsed:
+            _wrap_passthrough_managers(tree, managers)
+            modname = rel[:-3].replace("/", ".")
+            if modname.endswith(".__init__"):
+                modname = modname[: -len(".__init__")]
+            m = Mod(rel, modname, tree, src)
+            self.nlines += src.count("\n")
+            self.mods[rel] = m
+            self.by_modname[modname] = m
+            self._index_module(m)
 
     def _index_module(self, m):
         is_pkg = m.rel.endswith("__init__.py")
